@@ -41,7 +41,7 @@ OPS = [
             bt_iter_facts(list@, it_rem(it.snapshot@)),
             wf16(aval(*self)) ==> buf_seq(&$BUF) == enc16(0) + members_enc(aval(*self)->members, it.index@ as nat),
 '''}},
-     'proofs': [{'before': '$BUF.put(item.to_bytes());', 'optional': True,
+     'proofs': [{'before': '$BUF.put(', 'nth': 0, 'optional': True,
                  'text': '''proof { // termination: the element is a sub-term of *self
                         let ghost l0 = self->Array_0; vstd::std_specs::vec::axiom_vec_index_decreases(l0, i as int); }'''},
                 {'before': 'for item in list.iter()', 'optional': True,
